@@ -108,5 +108,5 @@ def route(cx, chk, cfg, F, f, name):
         chk.ob("C07.R1" if name != "put_protected" else "C07.R4", "%s:%s" % (cfg, f["q"]), "routing conforms on %s" % counts, {"fn": f["q"], "classes": counts})
     for k, n in counts.items():
         if name == "put_protected" and k == "hit-probationary" or name != "put_protected":
-            if n < 1 and not (name in ("get", "get_mut") and False):
+            if ok and n < 1:
                 raise AnalysisError("C07: no %s path found in %s (%s)" % (k, f["q"], cfg))
